@@ -277,6 +277,9 @@ def main(ctx: Ctx):
     errors, _ = translate.regenerate_poolreset()      # T-reset: Gen/PoolReset.lean from the prologue of Pool.run
     for e in errors:
         ctx.broke('translation', 'harness/translate.py (T-reset)', e)
+    errors, _ = translate.regenerate_registry()       # T-reg: Gen/PoolRegistry.lean from add_worker / restart_workers / _close
+    for e in errors:
+        ctx.broke('translation', 'harness/translate.py (T-reg)', e)
     ctx.lean()
     fake_chains(ctx)
     T = ctx.thorough
